@@ -133,3 +133,30 @@ Example C19_guard_satisfiable :
   /\ cousin_guard caterpillar = true
   /\ tsize bin3 = 15%nat /\ tsize irregular = 14%nat /\ tsize caterpillar = 13%nat.
 Proof. split; [repeat split|]. repeat split; vm_compute; reflexivity. Qed.
+
+(* ---------------------------------------------------------------------------------------------
+   Laying the same tree object out again (Algo/Plot.v: a later call reads back the `shift` the
+   earlier calls left on the nodes).  `rt_again ps p t`: the coordinates after calling
+   reingold_tilford on the fresh tree t with the parameter sets ps (any rationals, in this order)
+   and then with p; the structure of the tree does not change in between. *)
+Theorem C19_rerun_fresh : forall p t, rt_again [] p t = reingold_tilford p t.
+Proof. exact rt_again_nil. Qed.
+Print Assumptions C19_rerun_fresh.
+
+(* shape, levels, parent midpoint, sibling separation and non-negative x hold after any number of
+   earlier layouts *)
+Theorem C19_rerun : forall eps ps p t, 0 <= eps -> params_pos p ->
+  prop_C19_but_cousins eps p t (rt_again ps p t) = true.
+Proof. exact again_but_cousins. Qed.
+Print Assumptions C19_rerun.
+
+(* Not so when the structure changes between two layouts (proposed finding K4-C19): lay out
+   r(a(a1, a2), b(b1)) with unit separations (b gets shift 1/2), append a fresh leaf c to r, lay
+   out again: b keeps its stale shift and lands at x = 2, c starts without one and lands at
+   x = 5/2, only 1/2 from its left sibling. *)
+Definition k4_tree : tree := nd [nd [leaf; leaf]; nd [leaf]].
+Example C19_rerun_after_insert_refuted :
+  let st := run_steps (layout unit_params (zero_d k4_tree)) [(EAdd [] 2, unit_params)] in
+  siblings_ok 0 1 (snd st) = false /\ midpoint_ok 0 (snd st) = true /\ nonneg_ok 0 (snd st) = true
+  /\ tsize (tree_of_d (fst st)) = 7%nat.
+Proof. repeat split; vm_compute; reflexivity. Qed.
